@@ -25,7 +25,7 @@ FAMILY = {"array_int": "array_new", "array_float": "array_new", "array_bool": "a
           "manual_alloc": "manual_alloc", "manual_reuse": "manual_alloc", "bytes_alloc": "bytes_alloc",
           "string_repeat": "string_repeat", "string_repeat_mb": "string_repeat", "pad_left": "string_pad", "pad_right": "string_pad",
           "pad_left_mb": "string_pad", "pad_right_mb": "string_pad", "concat_double": "string_concat",
-          "replace_sq": "string_product", "join_sq": "string_product",
+          "replace_sq": "string_product", "join_sq": "string_product", "str_literal": "string_literal",
           "vec_new_lit": "vec_literal", "closures": "closure"}
 # bytes per unit of the size argument
 UNIT = {"array_int": 8, "array_float": 8, "array_obj": 8, "array_bool": 1, "vec_push": 8, "vec_push_float": 8, "vec_push_obj": 8,
@@ -35,9 +35,9 @@ UNIT = {"array_int": 8, "array_float": 8, "array_obj": 8, "array_bool": 1, "vec_
         "pad_left_mb": 3, "pad_right_mb": 3}
 CAP_LO, CAP_HI = 1536 << 20, 3072 << 20
 LOOPS = ("vec_push", "vec_push_float", "vec_push_bool", "vec_push_obj", "vec_fill", "vec_fill_float", "vec_fill_bool", "vec_fill_obj",
-         "concat_double", "vec_new_lit", "closures", "manual_reuse", "replace_sq", "join_sq")   # a refusal in the middle leaves the earlier charges
+         "concat_double", "vec_new_lit", "closures", "manual_reuse", "replace_sq", "join_sq", "str_literal")   # a refusal in the middle leaves the earlier charges
 GUARDED_LOOPS = ("vec_new_lit", "closures")      # modelled as OLoop with the per-iteration requests read from the check log
-MODELLED = set(UNIT) | {"concat_double", "replace_sq", "join_sq"} | set(GUARDED_LOOPS)
+MODELLED = set(UNIT) | {"concat_double", "replace_sq", "join_sq", "str_literal"} | set(GUARDED_LOOPS)
 HOST_T = 65536
 # operations that make ONE request: when they are refused the host must not have been asked for anything
 SINGLE = {"array_int", "array_float", "array_bool", "array_obj", "vec_reserve", "vec_reserve_float", "vec_reserve_bool", "vec_reserve_obj",
@@ -202,6 +202,11 @@ def correspond(ctx, rows, const, tag):
     for op in GUARDED_LOOPS:
         if any(r["op"] == op for r in rows) and not any(k[0] == op for k in allocs):
             ctx.broken.append(f"correspondence C10: the per-iteration requests of {op} could not be read from the check log")
+    # the function object of the string-literal input: the second limit check of the n = 0 case (the first is merge_heap)
+    lit_fn = {}
+    for r in rows:
+        if r["op"] == "str_literal" and r["size"] == 0 and r["ev"]["ck"] and len(r["ev"]["ck"]) == 2 and r["kind"] == 0:
+            lit_fn[r["opt"]] = int(r["ev"]["ck"][1])
     med = {}
     for r in rows:
         if r["a0"]:
@@ -217,6 +222,11 @@ def correspond(ctx, rows, const, tag):
         a0 = r["a0"] or sorted(med.get((r["op"], r["opt"], r["limit"]), [0]))[0]
         n = r["size"]
         cop = r["coq_op"]
+        if r["op"] == "str_literal":
+            cfn = lit_fn.get(r["opt"])
+            if cfn is None:
+                continue
+            cop = f"OLiteral {cfn}"
         if r["op"] in GUARDED_LOOPS:
             al = allocs.get((r["op"], r["opt"]))
             if al is None:
@@ -266,8 +276,9 @@ def run(ctx):
         ctx.log(out[-2000:])
         return
     profiles = ["dev"] if ctx.tier == "quick" else ["dev", "release"]
-    n_random = 400 if ctx.tier == "quick" else 6000
+    n_random = 400 if ctx.tier == "quick" else 8000
     total, tied, distinct, stats = 0, 0, set(), {}
+    audit, by_class, by_limit, by_opt = {}, {}, {}, {}
     for prof in profiles:
         ok, paths, log = vlib.harness_build(["hx_heaplimit"], profile=prof)
         if not ok:
@@ -275,6 +286,10 @@ def run(ctx):
             ctx.log(log[-3000:])
             return
         cmd = [paths["hx_heaplimit"], "--seed", str(ctx.seed), "--random", str(n_random), "--opts", "0,2", "--jobs", "8"]
+        if ctx.tier == "thorough":
+            # all optimisation levels, a fourth limit, and the plain push loops run up to the limit (--deep)
+            cmd = [paths["hx_heaplimit"], "--seed", str(ctx.seed), "--random", str(n_random), "--opts", "0,1,2,3", "--jobs", "8",
+                   "--deep", "--limits", "1048576,2097152,4194304,16777216", "--timeout", "60"]
         if ctx.replay_file:
             rp = json.load(open(ctx.replay_file)).get("replay", {})
             if "op" in rp:
@@ -295,8 +310,10 @@ def run(ctx):
         rows = [r for o in outs for r in parse(o)]
         total += len(rows)
         cfail, cbase = calibrate(rows)
-        const = {}
+        const = {("str_literal", o): 0 for o in (0, 1, 2, 3)}     # nothing of the input is charged before merge_heap
         for key, vals in list(cfail.items()) + list(cbase.items()):
+            if key[0] == "str_literal":
+                continue
             if len(vals) == 1:
                 const[key] = next(iter(vals))
             else:
@@ -304,12 +321,31 @@ def run(ctx):
                 ctx.violation(f"failed-op-changed-accounting:{FAMILY.get(key[0], key[0])}",
                               f"{key[0]} at -O{key[1]}: refused operations leave different accounting deltas {sorted(vals)}", {"op": key[0], "opt": key[1], "deltas": sorted(vals)})
         for r in rows:
+            audit[f"{r['op']}:{KIND.get(r['kind'], r['kind'])}"] = audit.get(f"{r['op']}:{KIND.get(r['kind'], r['kind'])}", 0) + 1
+            by_class[size_class(r)] = by_class.get(size_class(r), 0) + 1
+            by_limit[str(r["limit"])] = by_limit.get(str(r["limit"]), 0) + 1
+            by_opt[str(r["opt"])] = by_opt.get(str(r["opt"]), 0) + 1
             oracle(ctx, r, const, stats)
             if r["kind"] != 0 or r["delta"] - const.get((r["op"], r["opt"]), 0) > 0:
                 distinct.add((r["op"], r["size"], r["limit"], r["opt"]))
         tied += correspond(ctx, rows, const, "c10" + prof)
         ctx.add_samples([{"op": r["op"], "size": r["size"], "limit": r["limit"], "opt": r["opt"], "kind": KIND.get(r["kind"]), "accounting_delta": r["delta"]}
                          for r in rows[:2] + rows[len(rows) // 2: len(rows) // 2 + 2]])
+    # generator audit: cases per operation x outcome kind, per size class, per limit; every modelled operation must be
+    # reached with every outcome kind it can have
+    ctx.cov["case_counts"] = {"by_op_and_kind": {k: v for k, v in sorted(audit.items())},
+                              "by_size_class": by_class, "by_limit": by_limit, "by_opt": by_opt}
+    need = {op: {"ok", "OutOfMemory"} for op in MODELLED if op != "bytes_alloc"}
+    need["bytes_alloc"] = {"ok", "TypeError"}
+    if ctx.tier == "quick":
+        need["vec_push_bool"] = {"ok"}      # the plain Vec<Bool> loop reaches the limit only with --deep (thorough); vec_fill_bool covers the region
+    for op in ("array_int", "array_float", "array_bool", "array_obj", "manual_alloc", "manual_reuse", "vec_reserve", "vec_reserve_float",
+               "vec_reserve_bool", "vec_reserve_obj"):
+        need[op] = need[op] | {"TypeError"}
+    need["manual_alloc"] = need["manual_alloc"] | {"InvalidAllocationSize"}
+    starved = [f"{op}:{k}" for op, ks in sorted(need.items()) for k in sorted(ks) if audit.get(f"{op}:{k}", 0) < 2]
+    if starved and not ctx.replay_file:
+        ctx.broken.append("generator audit C10: starved classes " + ", ".join(starved[:12]))
     ctx.cov["evaluations"] = total
     ctx.cov["model_evaluations"] = tied
     ctx.cov["distinct_nontrivial"] = len(distinct)
